@@ -2,16 +2,28 @@
 // Drives the real rfc8888.Recorder with arrival histories over 1..k SSRCs and
 // report builds placed anywhere; records every report (blocks sorted by SSRC,
 // marshalled length from pion/rtcp) and prints the cases as Coq terms.
+//
+// A second, small stream ("api" cases) goes through the interceptor glue: a
+// SenderInterceptor with a mock ticker (rfc8888.SenderTicker) and a mock clock
+// (rfc8888.SenderNow); RTP packets are read through BindRemoteStream (packet
+// channel), every tick of the mock ticker makes the loop call
+// Recorder.BuildReport(now, 1200) and write the report to the bound RTCPWriter.
+// The same history as Add/Build operations is compared with the same model and
+// judged by the same oracle.
 package main
 
 import (
 	"fmt"
 	"math/rand"
+	"reflect"
 	"sort"
+	"sync"
 	"time"
 
+	"github.com/pion/interceptor"
 	"github.com/pion/interceptor/pkg/rfc8888"
 	"github.com/pion/rtcp"
+	"github.com/pion/rtp"
 
 	"verifharness/internal/cq"
 )
@@ -40,6 +52,7 @@ type repOut struct {
 type c08Case struct {
 	Ops  []op     `json:"ops"`
 	Outs []repOut `json:"outs"`
+	API  bool     `json:"api,omitempty"` // driven through the SenderInterceptor (ticker loop, packet channel)
 }
 
 func project(rep *rtcp.CCFeedbackReport) repOut {
@@ -84,6 +97,168 @@ func run(ops []op) (c c08Case, fail *cq.ImplFailure) {
 	}
 
 	return c, nil
+}
+
+// mockTicker is handed to the interceptor through rfc8888.SenderTicker.
+type mockTicker struct{ ch chan time.Time }
+
+func (t *mockTicker) Ch() <-chan time.Time { return t.ch }
+func (t *mockTicker) Stop()                {}
+
+// tickerFactory builds a value of type rfc8888.TickerFactory. Its result type is
+// an unexported interface, so the function is made by reflection (no hook in the
+// package is needed): func(time.Duration) ticker { return t }.
+func tickerFactory(t *mockTicker, created chan<- time.Duration) rfc8888.TickerFactory {
+	ft := reflect.TypeOf(rfc8888.TickerFactory(nil))
+	fn := reflect.MakeFunc(ft, func(args []reflect.Value) []reflect.Value {
+		created <- time.Duration(args[0].Int())
+
+		return []reflect.Value{reflect.ValueOf(t).Convert(ft.Out(0))}
+	})
+	f, _ := fn.Interface().(rfc8888.TickerFactory)
+
+	return f
+}
+
+const apiWait = 10 * time.Second
+
+// runAPI drives the SenderInterceptor: "add" = one RTP packet read through
+// BindRemoteStream at mock time T (ECN is always 0 there), "build" = one tick of
+// the mock ticker at mock time T (BuildReport(now, 1200), written to the RTCPWriter).
+// The history must start with an add (the loop starts its ticker after the first packet).
+func runAPI(ops []op) (c c08Case, fail *cq.ImplFailure) { //nolint:cyclop
+	c = c08Case{Ops: ops, Outs: []repOut{}, API: true}
+	defer func() {
+		if r := recover(); r != nil {
+			fail = &cq.ImplFailure{Kind: "panic", Detail: fmt.Sprint(r), Case: c}
+		}
+	}()
+	var (
+		mu  sync.Mutex
+		now int64
+	)
+	setNow := func(t int64) { mu.Lock(); now = t; mu.Unlock() }
+	tick := &mockTicker{ch: make(chan time.Time)}
+	created := make(chan time.Duration, 1)
+	factory, err := rfc8888.NewSenderInterceptor(
+		rfc8888.SenderTicker(tickerFactory(tick, created)),
+		rfc8888.SenderNow(func() time.Time { mu.Lock(); defer mu.Unlock(); return time.Unix(0, now) }),
+	)
+	if err != nil {
+		return c, &cq.ImplFailure{Kind: "api", Detail: err.Error(), Case: c}
+	}
+	icpt, err := factory.NewInterceptor("c08")
+	if err != nil {
+		return c, &cq.ImplFailure{Kind: "api", Detail: err.Error(), Case: c}
+	}
+	reports := make(chan *rtcp.CCFeedbackReport, 1)
+	icpt.BindRTCPWriter(interceptor.RTCPWriterFunc(func(pkts []rtcp.Packet, _ interceptor.Attributes) (int, error) {
+		for _, p := range pkts {
+			if r, ok := p.(*rtcp.CCFeedbackReport); ok {
+				reports <- r
+			}
+		}
+
+		return 0, nil
+	}))
+	var cur []byte
+	reader := icpt.BindRemoteStream(&interceptor.StreamInfo{}, interceptor.RTPReaderFunc(
+		func(b []byte, a interceptor.Attributes) (int, interceptor.Attributes, error) {
+			return copy(b, cur), a, nil
+		}))
+	hang := func(what string) *cq.ImplFailure {
+		return &cq.ImplFailure{Kind: "hang", Detail: "interceptor glue: " + what, Case: c}
+	}
+	buf := make([]byte, 1500)
+	tickerUp := false
+	for i, o := range ops {
+		setNow(o.T)
+		if o.K == "add" {
+			hdr := rtp.Header{Version: 2, SSRC: o.SSRC, SequenceNumber: o.Seq, PayloadType: 96}
+			raw, merr := hdr.Marshal()
+			if merr != nil {
+				return c, &cq.ImplFailure{Kind: "api", Detail: merr.Error(), Case: c}
+			}
+			cur = append(raw, 1, 2, 3, 4)
+			done := make(chan error, 1)
+			go func() { _, _, rerr := reader.Read(buf, nil); done <- rerr }()
+			select {
+			case rerr := <-done:
+				if rerr != nil {
+					return c, &cq.ImplFailure{Kind: "api", Detail: rerr.Error(), Case: c}
+				}
+			case <-time.After(apiWait):
+				return c, hang(fmt.Sprintf("Read of packet %d not taken by the loop", i))
+			}
+			if !tickerUp { // the loop creates its ticker right after the first packet
+				select {
+				case d := <-created:
+					if d != 100*time.Millisecond {
+						return c, &cq.ImplFailure{Kind: "api", Detail: fmt.Sprintf("ticker interval %v", d), Case: c}
+					}
+					tickerUp = true
+				case <-time.After(apiWait):
+					return c, hang("ticker not created after the first packet")
+				}
+			}
+
+			continue
+		}
+		select {
+		case tick.ch <- time.Unix(0, o.T):
+		case <-time.After(apiWait):
+			return c, hang(fmt.Sprintf("tick %d not taken by the loop", i))
+		}
+		select {
+		case r := <-reports:
+			c.Outs = append(c.Outs, project(r))
+		case <-time.After(apiWait):
+			return c, hang(fmt.Sprintf("no report written after tick %d", i))
+		}
+	}
+	closed := make(chan error, 1)
+	go func() { closed <- icpt.Close() }()
+	select {
+	case <-closed:
+	case <-time.After(apiWait):
+		return c, hang("Close does not return")
+	}
+	select {
+	case <-reports:
+		return c, &cq.ImplFailure{Kind: "api", Detail: "report written without a tick", Case: c}
+	default:
+	}
+
+	return c, nil
+}
+
+// genAPI: an add first, ECN 0 everywhere, builds are ticks with the interceptor's fixed maximum size.
+func genAPI(r *rand.Rand) ([]op, []string) {
+	for {
+		ops, tags := genCase(r, false)
+		for len(ops) > 0 && ops[0].K != "add" {
+			ops = ops[1:]
+		}
+		if len(ops) < 2 {
+			continue
+		}
+		for i := range ops {
+			switch ops[i].K {
+			case "add":
+				ops[i].ECN = 0
+			default:
+				ops[i].K, ops[i].Max = "build", 1200
+			}
+		}
+		out := []string{"api"}
+		for _, t := range tags {
+			if t != "raw-budget" && t != "max-near-headers" && t != "max-small" {
+				out = append(out, t)
+			}
+		}
+
+		return ops, out
+	}
 }
 
 func (c c08Case) coq() string {
@@ -377,8 +552,12 @@ func main() {
 		Checks: []string{"c08_mismatches", "c08_spec_failures"},
 	}
 	var fails []cq.ImplFailure
-	addCase := func(ops []op, tags ...string) {
-		c, f := run(ops)
+	addCaseVia := func(api bool, ops []op, tags ...string) {
+		runner := run
+		if api {
+			runner = runAPI
+		}
+		c, f := runner(ops)
 		if f != nil {
 			fails = append(fails, *f)
 
@@ -386,10 +565,11 @@ func main() {
 		}
 		set.Cases = append(set.Cases, c.toCase(tags...))
 	}
+	addCase := func(ops []op, tags ...string) { addCaseVia(false, ops, tags...) }
 	if o.Replay != "" {
 		var c c08Case
 		cq.LoadReplay(o.Replay, &c)
-		addCase(c.Ops, "replay")
+		addCaseVia(c.API, c.Ops, "replay")
 		cq.Write(o, "replay", []*cq.Set{set}, nil, fails)
 
 		return
@@ -398,7 +578,7 @@ func main() {
 	for _, f := range o.CorpusFiles() {
 		var c c08Case
 		cq.LoadReplay(f, &c)
-		addCase(c.Ops, "corpus")
+		addCaseVia(c.API, c.Ops, "corpus")
 	}
 	n := o.Scale(1500, 20000)
 	nbig := o.Scale(6, 30)
@@ -413,7 +593,18 @@ func main() {
 		ops, tags := genCase(r, false)
 		addCase(ops, tags...)
 	}
+	// interceptor glue: ticker loop + packet channel, mock ticker and clock
+	napi := o.Scale(60, 600)
+	if o.N > 0 {
+		napi = 5
+	}
+	for i := 0; i < napi; i++ {
+		ops, tags := genAPI(r)
+		addCaseVia(true, ops, tags...)
+	}
 	cq.Write(o, "histories of AddPacket over 1..5 SSRCs (in-order, loss, duplicates, late, older than first, jumps, wrap) "+
-		"with BuildReport / raw-budget builds placed anywhere; distinct by content; non-trivial = at least one arrival and one report",
-		[]*cq.Set{set}, nil, fails)
+		"with BuildReport / raw-budget builds placed anywhere, plus histories driven through the SenderInterceptor "+
+		"(RTP reads through BindRemoteStream, mock ticker and clock; bucket api); distinct by content; "+
+		"non-trivial = at least one arrival and one report",
+		[]*cq.Set{set}, map[string]interface{}{"api_cases": napi}, fails)
 }
